@@ -9,6 +9,8 @@
   * `ravel/unravel`  : C-order flattening of a loop position
 -/
 
+import AmiscModel.Generated.Logic
+
 namespace Amisc
 
 abbrev Shape := List Nat
@@ -38,6 +40,29 @@ def outShape (loop out : Shape) : Shape :=
   let s1 := if out = [1] then loop else full          -- squeeze singleton outputs (last axis)
   let s1 := atleast1d s1
   let s2 := if loop = [1] then atleast1d (s1.drop 1) else s1   -- squeeze singleton loop dimension (first axis)
+  s2
+
+/-! ### the same shape algebra assembled from the fragments GENERATED out of `format_inputs._common_shape` / `format_outputs`
+    (`Gen.commonStep`, `Gen.squeezeOut`, `Gen.squeezeLoop`); this is what the driver runs. `C10.generated_commonShape_is_model`,
+    `generated_loopShape_is_model`, `generated_outShape_is_model`: equal to the reference definitions above. -/
+
+def commonShapeGen : Shape → Shape → Shape
+  | a :: as, b :: bs =>
+      match Gen.commonStep a b with
+      | some c => c :: commonShapeGen as bs
+      | none => []
+  | _, _ => []
+
+def loopShapeGen (shapes : List Shape) : Shape :=
+  match shapes.map atleast1d with
+  | [] => []
+  | s :: rest => (s :: rest).foldl commonShapeGen s
+
+def outShapeGen (loop out : Shape) : Shape :=
+  let full := loop ++ out
+  let s1 := if Gen.squeezeOut out then loop else full
+  let s1 := atleast1d s1
+  let s2 := if Gen.squeezeLoop loop then atleast1d (s1.drop 1) else s1
   s2
 
 /-- C-order flat index of a position -/
